@@ -39,7 +39,11 @@ fn payload(u: &mut Unstructured) -> arbitrary::Result<Payload> {
 }
 
 fn spec(u: &mut Unstructured) -> arbitrary::Result<Spec> {
-    Ok(Spec { cipher: if u.arbitrary()? { Cipher::Salsa20 } else { Cipher::Arc4 }, key_ix: u.int_in_range(0..=3u16)?, iv: u.arbitrary()? })
+    Ok(Spec { cipher: match u.int_in_range(0..=15u8)? {
+            0..=9 => Cipher::Salsa20,
+            10..=14 => Cipher::Arc4,
+            _ => Cipher::Other(u.arbitrary()?),
+        }, key_ix: u.int_in_range(0..=3u16)?, iv: u.arbitrary()? })
 }
 
 fn mode(u: &mut Unstructured) -> arbitrary::Result<M> {
